@@ -4,7 +4,7 @@ poison allocator (M5) makes dependence on uninitialised memory observable; contr
 expand_array (= np.kron with ones) runs inside the workers."""
 import os, random
 import numpy as np
-from .. import common, gen, refparse, workload, pools, poison, contracts
+from .. import common, gen, refparse, workload, pools, poison, contracts, endurance
 
 ID = "C08"
 LEVEL = "exploration"
@@ -14,7 +14,7 @@ RULE = ("cases = generated 2D plotfiles (rectangular domains, non-zero origin, n
         "one evaluation = one flatten compared bitwise with the model's covering grid. distinct = "
         "hash(model, fields, limit, mode); non-trivial = >=2 levels and a non-square domain or box")
 ASSUMPTIONS = ["generator/refparse trusted base", "pool shim M1 with shuffled schedules"]
-REQUIRED_OBS = {"flattened": 100, "reused_instance_calls": 60, "parallel": 30, "with_grid_level": 30, "cli_runs": 20}
+REQUIRED_OBS = {"endurance_calls": 100, "flattened": 100, "reused_instance_calls": 60, "parallel": 30, "with_grid_level": 30, "cli_runs": 20}
 
 
 def cases(tier, seed):
@@ -38,7 +38,8 @@ def cases(tier, seed):
     # a deep, narrow hierarchy: 11 levels (Level_10 sorts between Level_1 and Level_2 as a name)
     cs.append({"gen": dict(seed=seed + 4242, ndims=2, nlevels=1, base=[2, 2], bf=2, maxsz=2, names=["f0", "f1"],
                            payload="random", nfiles=1), "fmt": {}, "deepen": 11, "sel_seed": seed * 59 + 4242, "deep": True})
-    return cs
+    # M10: the same operation repeated in one process under a low open-file limit (vlib/endurance.py)
+    return list(cs) + [endurance.case("flatten2d", tier, seed)]
 
 
 def setup():
@@ -48,6 +49,8 @@ def setup():
 
 
 def run_case(case, work, rec):
+    if case.get("kind") == "endurance":
+        return endurance.run_case(case, work, rec)
     if case.get("kind") == "repo_suite":
         # the contracts while the repository's own tests run (real assets, real pools)
         from .. import reposuite
